@@ -481,6 +481,8 @@ func init() {
 					}
 					w.monitorRequests()
 					w.monitorOrder()
+					// every connect attempt has an outcome: requests do not wait forever
+					w.monitorProgressAs("C18")
 				},
 			}
 		}
